@@ -176,20 +176,34 @@ Print Assumptions c04_arity_rejected_is_error.
 
 (* ---- function values (foreach) and the tree evaluator, by induction over the expression: whatever the
    context and the expression, the only panic left is the decimal exponent overflow.
-   PARTIAL: (1) hypothesis on the functions outside the modelled set (they are covered by the sweep only);
+   PARTIAL: (1) hypothesis ext_well_behaved on the functions outside the modelled set: they return, or panic with
+   the exponent class only (they are covered by the sweep only; satisfiable: ext_hypothesis_satisfiable);
    (2) anonymous functions and ^ are outside the expression type; (3) the exponent class itself ---- *)
 
 Theorem c04_call_panics_only_on_exponent_overflow_partial : forall wclass regex ext,
-  (forall id args c, ext id args = Panic c -> c = PExponent) ->
+  ext_well_behaved ext ->
   forall f args c, call_function wclass regex ext f args = Panic c -> c = PExponent.
 Proof. exact call_function_exponent_only. Qed.
 Print Assumptions c04_call_panics_only_on_exponent_overflow_partial.
 
 Theorem c04_eval_panics_only_on_exponent_overflow_partial : forall wclass regex ext lookup_function,
-  (forall id args c, ext id args = Panic c -> c = PExponent) ->
-  forall ctx e c, eval wclass regex ext lookup_function ctx e = Panic c -> c = PExponent.
-Proof. exact eval_exponent_only. Qed.
+  ext_well_behaved ext ->
+  forall ctx e, eval wclass regex ext lookup_function ctx e <> NoFuel /\
+                forall c, eval wclass regex ext lookup_function ctx e = Panic c -> c = PExponent.
+Proof. exact eval_statement. Qed.
 Print Assumptions c04_eval_panics_only_on_exponent_overflow_partial.
+
+(* none of the above is true because the model ran out of fuel: the fuel-bounded loops of the model (object
+   pairs, has_group, nesting of foreach) always finish *)
+Theorem c04_builtins_never_out_of_fuel : forall wclass regex ext f args,
+  exponent_free f = true -> call_function wclass regex ext f args <> NoFuel.
+Proof. exact builtin_fuel. Qed.
+Print Assumptions c04_builtins_never_out_of_fuel.
+
+Theorem c04_call_never_out_of_fuel : forall wclass regex ext,
+  ext_well_behaved ext -> forall f args, call_function wclass regex ext f args <> NoFuel.
+Proof. exact call_function_fuel. Qed.
+Print Assumptions c04_call_never_out_of_fuel.
 
 (* every operator other than / : no panic of any class, for all operands (Multiply checks the exponent sum) *)
 Theorem c04_operators_no_panic : forall op x y c, op <> ODiv -> eval_binop op x y <> Panic c.
@@ -232,6 +246,12 @@ Theorem c04_rounding_places_guarded :
 Proof. exact rounding_places_guarded. Qed.
 Print Assumptions c04_rounding_places_guarded.
 
+Theorem c04_operator_guards_in_source :
+  max_number_exponent_src = max_number_exponent /\ forallb snd operator_guards = true
+  /\ List.length operator_guards = 3%nat.
+Proof. exact operator_guards_in_source. Qed.
+Print Assumptions c04_operator_guards_in_source.
+
 (* meaning of site_ok for a registration with a maximum: every admitted count, not a sample *)
 Theorem c04_site_ok_sound_bounded : forall s r sh total,
   site_ok_for s r = true -> site_shift s r = Some sh -> (0 <= r_max r)%Z ->
@@ -239,3 +259,12 @@ Theorem c04_site_ok_sound_bounded : forall s r sh total,
   forallb (guard_holds (total - sh)) (s_guards s) = true -> in_range s (total - sh) = true.
 Proof. exact site_ok_for_sound_bounded. Qed.
 Print Assumptions c04_site_ok_sound_bounded.
+
+(* ... and for a registration without a maximum (MinArgsCheck, unwrapped functions): EVERY count >= the minimum,
+   although only finitely many are evaluated *)
+Theorem c04_site_ok_sound_unbounded : forall s r sh total,
+  site_ok_for s r = true -> site_shift s r = Some sh -> (r_max r < 0)%Z -> (sh <= Z.max (r_shift r) 0)%Z ->
+  (r_min r <= total)%Z ->
+  forallb (guard_holds (total - sh)) (s_guards s) = true -> in_range s (total - sh) = true.
+Proof. exact site_ok_for_sound_unbounded. Qed.
+Print Assumptions c04_site_ok_sound_unbounded.
